@@ -69,7 +69,8 @@ def generate(rng, tier, run, seed=0):
             by_kind.setdefault(f['kind'], []).append(f)
         pick = []
         for k in sorted(by_kind):
-            pick.append(rng.choice(by_kind[k]))
+            rare = [f for f in by_kind[k] if f.get('ctx') in ('parent-repeats', 'opener-then-repeat', 'non-adjacent', 'gap')]
+            pick.append(rng.choice(rare if rare and rng.random() < 0.7 else by_kind[k]))
         rest = [f for f in fl if f not in pick]
         rng.shuffle(rest)
         fl = pick + rest[:max(0, cap - len(pick))]
@@ -225,7 +226,7 @@ def check_fault(case, f, m, out, log, idx):
     else:
         codes = want.split('|')
         hit = [e for e in here if e.level == 'seg' and e.code in codes]
-        if kind in ('missing_required_seg',):
+        if kind in ('missing_required_seg', 'missing_required_loop'):
             hit = [e for e in hit if e.seg_id == f['seg_id']]
         if not hit:
             anyw = [e for e in r.errors if e.level == 'seg' and e.code in codes]
